@@ -7,6 +7,7 @@
 //!     | {"t":"list","v":[TV..]} | {"t":"tuple","v":[TV..]} | {"t":"map","v":[[TV,TV]..]}  (maps are built by the VM's BuildMap)
 //! Response: {"items": [res..]}
 //!   expr item: {"load": "ok"|{"err":k}, "ops": [op names of `{{ E }}`], "const": SV (when the stream is LoadConst, Emit),
+//!               "code": [[op, arg]..] of `{{ E }}` (when the item says "code": true; constants as SV),
 //!               "ast_json": the parser's AST as JSON text (when the item says "ast": true),
 //!               "render": {"ok": text of `{{ E }}\x01{{ [E] }}`} | {"err": k}, "eval": {"ok": SV} | {"err": k}}
 //!   template item: {"load": .., "ops": [..], "render": ..}
@@ -74,7 +75,7 @@ fn build(tv: &J) -> Value {
 }
 
 fn sv(v: &Value, depth: usize) -> J {
-    if depth > 6 {
+    if depth > 24 {
         return json!({"k": "deep"});
     }
     match v.kind() {
@@ -112,6 +113,7 @@ fn sv(v: &Value, depth: usize) -> J {
             json!({"k": k, "v": items})
         }
         ValueKind::Map => {
+            let is_kwargs = minijinja::value::Kwargs::try_from(v.clone()).is_ok();
             let items: Vec<J> = match v.try_iter() {
                 Ok(it) => it
                     .take(64)
@@ -122,10 +124,21 @@ fn sv(v: &Value, depth: usize) -> J {
                     .collect(),
                 Err(_) => vec![],
             };
-            json!({"k": "map", "v": items})
+            json!({"k": if is_kwargs { "kwargs" } else { "map" }, "v": items})
         }
         _ => json!({"k": "other", "d": format!("{:?}", v)}),
     }
+}
+
+fn probe(pos: Vec<Value>, kwargs: &minijinja::value::Kwargs) -> Value {
+    let mut m: BTreeMap<String, Value> = BTreeMap::new();
+    let keys: Vec<String> = kwargs.args().map(|s| s.to_string()).collect();
+    for k in keys {
+        if let Ok(v) = kwargs.get::<Value>(&k) {
+            m.insert(k, v);
+        }
+    }
+    Value::from(vec![Value::from(pos), Value::from(m)])
 }
 
 fn op_name(i: &Instruction) -> String {
@@ -146,7 +159,7 @@ fn ctx_of(item: &J) -> Value {
     Value::from(m)
 }
 
-fn load_and_run(env: &mut Environment, src: &str, render_src: Option<&str>, ctx: &Value, out: &mut serde_json::Map<String, J>) {
+fn load_and_run(env: &mut Environment, src: &str, render_src: Option<&str>, ctx: &Value, want_code: bool, out: &mut serde_json::Map<String, J>) {
     match env.add_template_owned("main".to_string(), src.to_string()) {
         Err(e) => {
             out.insert("load".into(), errj(&e));
@@ -156,9 +169,16 @@ fn load_and_run(env: &mut Environment, src: &str, render_src: Option<&str>, ctx:
             let tmpl = env.get_template("main").unwrap();
             let c = minijinja::machinery::get_compiled_template(&tmpl);
             let mut ops = vec![];
+            let mut code = vec![];
             let mut i = 0;
             let mut first_const = None;
             while let Some(x) = c.instructions.get(i) {
+                // [name, argument]: a constant as structural value, anything else as serde prints it
+                let arg = match x {
+                    Instruction::LoadConst(v) => sv(v, 0),
+                    _ => serde_json::to_value(x).ok().and_then(|j| j.get("arg").cloned()).unwrap_or(J::Null),
+                };
+                code.push(json!([op_name(x), arg]));
                 if i == 0 {
                     if let Instruction::LoadConst(v) = x {
                         first_const = Some(v.clone());
@@ -173,6 +193,9 @@ fn load_and_run(env: &mut Environment, src: &str, render_src: Option<&str>, ctx:
                 }
             }
             out.insert("ops".into(), json!(ops));
+            if want_code {
+                out.insert("code".into(), json!(code));
+            }
             if render_src.is_none() {
                 let r = match tmpl.render(ctx.clone()) {
                     Ok(s) => json!({"ok": s}),
@@ -198,13 +221,23 @@ fn run_item(ub: UndefinedBehavior, item: &J) -> J {
     let mut env = Environment::new();
     minijinja_contrib::add_to_environment(&mut env);
     env.set_undefined_behavior(ub);
+    // probes that hand back what they were given: [positional arguments, keyword map]
+    env.add_function("cargs", |rest: minijinja::value::Rest<Value>, kwargs: minijinja::value::Kwargs| -> Value {
+        probe(rest.0.clone(), &kwargs)
+    });
+    env.add_filter("cfilt", |value: Value, rest: minijinja::value::Rest<Value>, kwargs: minijinja::value::Kwargs| -> Value {
+        let mut pos = vec![value];
+        pos.extend(rest.0.iter().cloned());
+        probe(pos, &kwargs)
+    });
     let ctx = ctx_of(item);
     let mut out = serde_json::Map::new();
     if let Some(e) = item.get("expr").and_then(|x| x.as_str()) {
         let src = format!("{{{{ {} }}}}", e);
         let prelude = item.get("prelude").and_then(|x| x.as_str()).unwrap_or("");
         let rsrc = format!("{}{{{{ {} }}}}\u{1}{{{{ [{}] }}}}", prelude, e, e);
-        load_and_run(&mut env, &src, Some(&rsrc), &ctx, &mut out);
+        let want_code = item.get("code").and_then(|x| x.as_bool()).unwrap_or(false);
+        load_and_run(&mut env, &src, Some(&rsrc), &ctx, want_code, &mut out);
         let ev = match env.compile_expression(e) {
             Err(err) => json!({"load_err": mjverif::err_code(err.kind())}),
             Ok(x) => match x.eval(ctx.clone()) {
@@ -222,7 +255,7 @@ fn run_item(ub: UndefinedBehavior, item: &J) -> J {
             out.insert("ast_json".into(), J::String(a));
         }
     } else if let Some(src) = item.get("src").and_then(|x| x.as_str()) {
-        load_and_run(&mut env, src, None, &ctx, &mut out);
+        load_and_run(&mut env, src, None, &ctx, false, &mut out);
     }
     J::Object(out)
 }
